@@ -8,7 +8,7 @@ record("HpcSubmitter", file=F, fields={
     "_cluster": "Ref[Cluster]",
     "_batch_index": "int",
     "_config_file": "Opaque",
-    "_base_config": "Opaque",
+    "_base_config": "Dict[Name,Opaque]",
     "_hpc_mgr": "Ref[HpcManager]",
     "_output": "Opaque",
     "_max_nodes": "int",
@@ -73,6 +73,7 @@ INV = [
     "forall(k, range(L0()), submitted_jobs[k] == old(submitted_jobs)[k])",
     "forall(k, range(L0(), len(submitted_jobs)), batch._jobs[k - L0()] == cfgjob(self, submitted_jobs[k].name))",
     "forall(k, range(L0(), len(submitted_jobs)), submitted_jobs[k].name in S())",
+    "forall(x, S(), exists(k, range(L0(), len(submitted_jobs)), submitted_jobs[k].name == x))",
     "forall(k, range(L0(), len(submitted_jobs)), exists(m, range(len(available_jobs)), available_jobs[m] == submitted_jobs[k]))",
     "forall(k, range(L0(), len(submitted_jobs)), forall(m, range(L0(), k), submitted_jobs[k].name != submitted_jobs[m].name))",
     "unchanged(Job.blocked_by) and unchanged(Job.name) and unchanged(Job.state)",
@@ -117,6 +118,7 @@ contract("HpcSubmitter._make_batch", file=F,
              "forall(k, range(old(len(submitted_jobs))), submitted_jobs[k] == old(submitted_jobs)[k])",
              "forall(k, range(L0(), len(submitted_jobs)), result[0]._jobs[k - L0()] == cfgjob(self, submitted_jobs[k].name))",
              "forall(k, range(L0(), len(submitted_jobs)), submitted_jobs[k].name in result[0]._job_names)",
+             "forall(x, result[0]._job_names, exists(k, range(L0(), len(submitted_jobs)), submitted_jobs[k].name == x))",
              "forall(k, range(L0(), len(submitted_jobs)), exists(m, range(len(available_jobs)), available_jobs[m] == submitted_jobs[k]))",
              "forall(k, range(L0(), len(submitted_jobs)), forall(m, range(L0(), k), submitted_jobs[k].name != submitted_jobs[m].name))",
              # (b) C01: not_checked is a suffix of available_jobs and contains no job placed in this batch
@@ -141,3 +143,43 @@ contract("HpcSubmitter._make_batch", file=F,
                    "_BatchJobs._estimated_batch_time", "_BatchJobs._num_processes", "_BatchJobs._per_node_batch_size",
                    "_BatchJobs._time_based_batching", "_BatchJobs._try_add_blocked_jobs", "_BatchJobs._jobs", "_BatchJobs._job_names",
                    "_BatchJobs._is_ready_to_submit", "_BatchJobs._max_batch_time"])
+
+
+# ---- available jobs of a group ---------------------------------------------------------------
+AVAIL_POST = [
+    # sound: every returned job is a not-submitted job of this group, taken from the persisted list
+    "forall(k, range(len(result)), result[k].state == JobState.NOT_SUBMITTED "
+    "and cfgjob(self, result[k].name).submission_group == submission_group.name "
+    "and exists(m, range(len(jobs_of(self._cluster))), jobs_of(self._cluster)[m] == result[k]))",
+    # complete: every such job is returned  (C05: nothing is skipped)
+    "forall(m, range(len(jobs_of(self._cluster))), implies(jobs_of(self._cluster)[m].state == JobState.NOT_SUBMITTED "
+    "and cfgjob(self, jobs_of(self._cluster)[m].name).submission_group == submission_group.name, "
+    "exists(k, range(len(result)), result[k] == jobs_of(self._cluster)[m])))",
+    # C01: pairwise distinct names
+    "forall(k, range(len(result)), forall(m, range(k), result[k].name != result[m].name))",
+]
+AVAIL_PRE = [
+    "not isnone(self._cluster._job_status)",
+    "distinct_job_names(self._cluster)",
+    "forall(i, range(len(jobs_of(self._cluster))), known(self, jobs_of(self._cluster)[i].name))",
+]
+
+contract("HpcSubmitter._get_available_jobs", file=F,
+         params=[("self", "Ref[HpcSubmitter]"), ("submission_group", "Ref[SubmissionGroup]")],
+         returns="List[Ref[Job]]", fresh_result=True,
+         locals={"available_jobs": "List[Ref[Job]]"},
+         requires=AVAIL_PRE, ensures=AVAIL_POST,
+         loops={1: {"invariant": [
+             "forall(k, range(len(available_jobs)), exists(m, range(_k1), _it1[m] == available_jobs[k]))",
+             "forall(k, range(len(available_jobs)), cfgjob(self, available_jobs[k].name).submission_group == submission_group.name)",
+             "forall(m, range(_k1), implies(cfgjob(self, _it1[m].name).submission_group == submission_group.name, "
+             "exists(k, range(len(available_jobs)), available_jobs[k] == _it1[m])))",
+             "forall(k, range(len(available_jobs)), forall(m, range(k), available_jobs[k].name != available_jobs[m].name))",
+         ]}})
+
+contract("HpcSubmitter._get_available_jobs_by_time", kind="assumed",
+         params=[("self", "Ref[HpcSubmitter]"), ("submission_group", "Ref[SubmissionGroup]")],
+         returns="List[Ref[Job]]", fresh_result=True,
+         requires=AVAIL_PRE, ensures=AVAIL_POST,
+         note="same jobs as _get_available_jobs re-ordered by list.sort(key=lambda) (T-sort: a permutation); the lambda/sort is outside the "
+              "verified subset, checked only by the bounded native harness")
